@@ -197,12 +197,13 @@ func c10Run(c *vfCtx, cs c10Case) {
 	}
 	var sortedBytes []byte
 	sortedFrom := ""
-	for _, perm := range c10Perms(len(cs.IDs)) {
+	for pn, perm := range c10Perms(len(cs.IDs)) {
 		var es []vfEntry
 		for _, i := range perm {
 			es = append(es, vfEntry{ID: cs.IDs[i], Body: cs.Bodies[i]})
 		}
 		sc := vfCleanScenario{Files: []vfNamedFile{{Name: "f.snap", Entries: es}}, Tests: tests, Count: 1, Sort: cs.Sort, Env: cs.Env, Clean2: true}
+		sc.CRLF = pn%3 == 2 // every third initial order: the same file as a checkout with CR LF line ends leaves it
 		var foreign []string
 		if cs.Extra {
 			// every id that is live in f.snap also names a stale entry of a.snap and of z.snap (addressed by TestKeep only)
